@@ -72,6 +72,14 @@ func c18Pairs(c *ctx) {
 			note("LunarUtil.GetDayXiongSha", render1(k2.m)+","+k2.gz, render1(LunarUtil.GetDayXiongSha(k2.m, k2.gz)))
 		}
 	}
+	// a leap month is the month whose number it repeats: the same spirits under the same key
+	for i1, k1 := range keys {
+		if !c.mine(i1) {
+			continue
+		}
+		note("LunarUtil.GetDayJiShen", render1(k1.m)+","+k1.gz, render1(LunarUtil.GetDayJiShen(-k1.m, k1.gz)))
+		note("LunarUtil.GetDayXiongSha", render1(k1.m)+","+k1.gz, render1(LunarUtil.GetDayXiongSha(-k1.m, k1.gz)))
+	}
 	np := c.argInt("pred", 30)
 	for ia, a := range LunarUtil.JIA_ZI {
 		if !c.mine(ia) {
